@@ -6,8 +6,10 @@ import Artela.Model.Interp
   `math/big` values are `Nat`; `.Uint64()` is the low 64 bits; `getData` is the interpreter model's (uint64 sum, the
   clamps, right padding); `big.Int.Bytes()` is `natBytes`; `common.LeftPadBytes` is `leftPad`; `big.Int.Exp(x, y, m)`
   for m ≠ 0 is square-and-multiply (`powMod`), proved equal to x ^ y % m in Props/Modexp.lean.
-  What is NOT modelled: the allocation `RightPadBytes` makes for a huge `size` (the call is refused for want of gas
-  before `Run` is reached; `S stdwork` measures it).
+  What is NOT modelled: the allocations `RightPadBytes` / `LeftPadBytes` make for a huge length (from about 2^48 bytes the Go
+  runtime panics with `makeslice: len out of range`, the model returns the padded list). Such lengths are priced at MaxUint64,
+  and `RunPrecompiledContract` refuses `suppliedGas < gasCost`, so `Run` is reached with them only by a call that supplies
+  exactly 2^64-1 gas; go-ethereum v1.12.0 behaves identically (`S stdwork` measures what payable inputs allocate).
 -/
 namespace Artela
 namespace Modexp
@@ -20,6 +22,9 @@ decreasing_by exact Nat.div_lt_self (Nat.pos_of_ne_zero _h) (by decide)
 
 /-- `common.LeftPadBytes(b, n)` -/
 def leftPad (b : Bytes) (n : Nat) : Bytes := if n ≤ b.length then b else List.replicate (n - b.length) 0 ++ b
+
+/-- `common.LeftPadBytes(b, int(n))` for a uint64 `n`: from 2^63 on the `int` is negative and nothing is padded -/
+def leftPadU64 (b : Bytes) (n : Nat) : Bytes := if n < 2 ^ 63 then leftPad b n else b
 
 /-- `big.Int.BitLen()` -/
 def bitLen (n : Nat) : Nat := if n = 0 then 0 else Nat.log2 n + 1
@@ -101,7 +106,7 @@ def value (o : Operands) : Nat :=
 def run (input : Bytes) : Res Bytes := do
   match ← operands input with
   | none => pure []
-  | some o => pure (leftPad (natBytes (value o)) o.modLen)
+  | some o => pure (leftPadU64 (natBytes (value o)) o.modLen)
 
 end Modexp
 end Artela
